@@ -14,6 +14,8 @@ import (
 	"hash/fnv"
 	"os"
 	"path/filepath"
+	"runtime"
+	"runtime/debug"
 	"sort"
 	"strconv"
 	"strings"
@@ -91,6 +93,8 @@ type Summary struct {
 	Hashes     map[string]string `json:"hashes,omitempty"` // determinism mode: seed -> trace hash
 }
 
+var gcEvery = int(envInt("VERIF_GC_EVERY", 50))
+
 func envInt(name string, def int64) int64 {
 	if v := os.Getenv(name); v != "" {
 		if n, err := strconv.ParseInt(v, 10, 64); err == nil {
@@ -121,7 +125,21 @@ func roundTrip(h *Harness, sc interface{}) (interface{}, []byte, error) {
 	return out, b, nil
 }
 
+var execCount int
+
+// execOnce runs one bubble. The garbage collector is switched off while a run
+// executes (a GC cycle preempts the running goroutine and reorders the run
+// queue, which would make schedules irreproducible) and is run explicitly
+// between runs instead.
 func execOnce(t *testing.T, h *Harness, sc interface{}, o sim.Options) *sim.Result {
+	if execCount == 0 {
+		debug.SetGCPercent(-1)
+		debug.SetMemoryLimit(6 << 30)
+	}
+	execCount++
+	if execCount%gcEvery == 0 {
+		runtime.GC()
+	}
 	if o.MaxSteps == 0 {
 		o.MaxSteps = h.MaxSteps
 	}
@@ -245,6 +263,25 @@ func runMode(t *testing.T, h *Harness, determinism bool) {
 			sc3, _, _ := roundTrip(h, sc0)
 			res3 := execOnce(t, h, sc3, sim.Options{Tape: res.Tape, Replay: true})
 			watchdogStart = time.Time{}
+			if res.Hash != res2.Hash && os.Getenv("VERIF_DEBUG_DET") != "" {
+				sa, _, _ := roundTrip(h, sc0)
+				ra := execOnce(t, h, sa, sim.Options{Seed: sim.Mix(seed, 2), TraceSteps: true, KeepLog: 5000})
+				sb, _, _ := roundTrip(h, sc0)
+				rb := execOnce(t, h, sb, sim.Options{Seed: sim.Mix(seed, 2), TraceSteps: true, KeepLog: 5000})
+				for i := 0; i < len(ra.Log) && i < len(rb.Log); i++ {
+					if ra.Log[i] != rb.Log[i] {
+						lo := i - 6
+						if lo < 0 {
+							lo = 0
+						}
+						fmt.Printf("DIVERGENCE seed %d at log line %d\n", seed, i)
+						for j := lo; j <= i; j++ {
+							fmt.Printf("  A %s\n  B %s\n", ra.Log[j], rb.Log[j])
+						}
+						break
+					}
+				}
+			}
 			sum.Hashes[strconv.FormatUint(seed, 10)] = res.Hash + "/" + res2.Hash + "/" + res3.Hash + "/" + res.Outcome
 		}
 		if res.Nontrivial {
